@@ -233,6 +233,9 @@ func (c *Decoder) decodeInteger(frame *Frame) (*ast.Integer, error) {
 		return nil, errors.WithStack(err)
 	}
 
+	if len(buf) < 8 {
+		return nil, errors.WithStack(fmt.Errorf("INTEGER_VALUE frame is too short: %d bytes", len(buf)))
+	}
 	v := binary.BigEndian.Uint64(buf[:8])
 	integer := &ast.Integer{
 		Value: int64(v),
@@ -253,6 +256,9 @@ func (c *Decoder) decodeFloat(frame *Frame) (*ast.Float, error) {
 		return nil, errors.WithStack(err)
 	}
 
+	if len(buf) < 8 {
+		return nil, errors.WithStack(fmt.Errorf("FLOAT_VALUE frame is too short: %d bytes", len(buf)))
+	}
 	bits := binary.BigEndian.Uint64(buf[:8])
 	float := &ast.Float{
 		Value: math.Float64frombits(bits),
@@ -271,6 +277,10 @@ func (c *Decoder) decodeBoolean(frame *Frame) (*ast.Boolean, error) {
 	buf, err := frame.Read(c.r)
 	if err != nil {
 		return nil, errors.WithStack(err)
+	}
+
+	if len(buf) < 1 {
+		return nil, errors.WithStack(fmt.Errorf("BOOL_VALUE frame is too short: %d bytes", len(buf)))
 	}
 
 	return &ast.Boolean{
